@@ -113,12 +113,16 @@ static J gen_c08 (uint64_t seed, uint64_t idx)
 	cfg ["fmt"] = f.name ; cfg ["ch"] = ch ; cfg ["sr"] = rate ; cfg ["route"] = route ; cfg ["T"] = stype_name (T) ; cfg ["model"] = stype_name (T) ;
 	DataDesc d ; d.cls = g.pick_class (f.is_float || f.is_double) ; d.k = (int) g.rng.range (1, 8) ; d.stream = (int64_t) g.rng.below (1000) ; cfg ["data"] = data_desc_to (d) ;
 	J ops = J::arr () ;
+	GenCtx gx (sub_seed (seed, "C08x", idx)) ;		// later additions: a stream of their own
 	int64_t frames = 0, rd = 0, wr = 0 ;
 	bool prepop = g.rng.chance (0.6) ;
 	if (prepop)
 	{	J o = mkop ("open") ; o ["mode"] = "w" ; ops.push (o) ;
 		int nw = (int) g.rng.range (1, 3) ;
 		for (int k = 0 ; k < nw ; k++) { J w = mkop ("write") ; w ["T"] = stype_name (T) ; if (g.rng.chance (0.5)) w ["fr"] = 1 ; int64_t n = G * g.rng.range (1, 300 / G) ; w ["n"] = (long long) n ; frames += n ; ops.push (w) ; }
+		// a quarter of the pre-populated files carry a chunk behind the audio (string set after the last write): appending in the
+		// read/write session then has to go over it, and the chunk has to be back behind the audio after close
+		if (gx.rng.chance (0.25)) { J s = mkop ("setstr") ; s ["type"] = SF_STR_COMMENT ; s ["len"] = (long long) gx.rng.range (1, 60) ; s ["stream"] = 7 ; ops.push (s) ; }
 		ops.push (mkop ("close")) ;
 	}
 	{ J o = mkop ("open") ; o ["mode"] = "rw" ; o ["expect"] = "any" ; ops.push (o) ; }
@@ -165,6 +169,22 @@ static J gen_c08 (uint64_t seed, uint64_t idx)
 		else if (q < 98) { ops.push (mkop ("close")) ; J o = mkop ("open") ; o ["mode"] = "rw" ; ops.push (o) ; rd = 0 ; wr = frames ; }
 		else { ops.push (mkop ("close")) ; in_rw = false ; }
 	}
+	if (in_rw && gx.rng.chance (0.3))
+	{	// a read that runs into the end of the audio, directly followed by a write (an append, unless the write pointer was moved):
+		// the switch has to re-position the file even though both pointers may now be equal
+		int64_t back = (int64_t) gx.rng.below (20) ; if (back > frames) back = frames ;
+		J s = mkop ("seek") ; s ["off"] = (long long) -back ; s ["whence"] = 2 ; s ["flag"] = SFM_READ ; ops.push (s) ;
+		J r = mkop ("read") ; r ["T"] = stype_name (T) ; if (gx.rng.chance (0.5)) r ["fr"] = 1 ; r ["n"] = (long long) (back + gx.rng.range (1, 6)) ; ops.push (r) ;
+		J w = mkop ("write") ; w ["T"] = stype_name (T) ; if (gx.rng.chance (0.5)) w ["fr"] = 1 ; int64_t n = G * gx.rng.range (1, 60 / G) ; w ["n"] = (long long) n ; ops.push (w) ;
+		rd = frames ; wr += n ; if (wr > frames) frames = wr ;
+	}
+	if (in_rw && G > 1 && frames >= 3 * G && gx.rng.chance (0.4))
+	{	// block codec: the last thing before close is a write of less than a block at the start of a block inside the existing audio.
+		// The rest of that block has to keep what it held (the codec has to load the block before it overwrites part of it).
+		int64_t tgt = G * (int64_t) gx.rng.below ((uint64_t) (frames / G - 1)) ;
+		J s = mkop ("seek") ; s ["off"] = (long long) tgt ; s ["whence"] = 0 ; s ["flag"] = SFM_WRITE ; ops.push (s) ;
+		J w = mkop ("write") ; w ["T"] = stype_name (T) ; w ["fr"] = 1 ; w ["n"] = (long long) gx.rng.range (1, G - 1) ; w ["tail"] = 1 ; ops.push (w) ;
+	}
 	if (in_rw) ops.push (mkop ("close")) ;
 	// final fresh read-only open sees exactly the final frame sequence and count
 	{ J o = mkop ("open") ; o ["mode"] = "r" ; ops.push (o) ; }
@@ -184,6 +204,15 @@ static Verdict check_c08 (const J &plan)
 		{ "read.short_not_eof", "final" }, { "read.beyond_eof", "final" }, { "frames.range", "final" }, { "truncate.state", "truncate" }, { "truncate.failed", "truncate" },
 		{ "write.count", "ret" }, { "open.fail#read", "final" } } ;
 	add_owned (v, "C08", r, owned) ;
+	{	// history discriminator: the file carried a chunk behind the audio (string set after the last write of the first session)
+		bool wrote = false, tail = false ;
+		for (auto &op : plan.at ("tasks") [0].at ("ops").a)
+		{	std::string k = op.gets ("op") ;
+			if (k == "write") wrote = true ; else if (k == "setstr" && wrote) tail = true ; else if (k == "close" || (k == "open" && wrote)) break ;
+		}
+		bool upd = false ; for (auto &op : plan.at ("tasks") [0].at ("ops").a) if (op.gets ("op") == "cmd" && (op.gets ("id") == "update_header" || op.gets ("id") == "auto_header")) upd = true ;
+		if (tail) for (auto &fd : v.findings) fd.sig += upd ? "+tail_chunk+header_update" : "+tail_chunk" ;
+	}
 	v.fmt = plan.at ("cfg").gets ("fmt") ; v.route = plan.at ("cfg").gets ("route") ;
 	v.shape = plan_shape (plan) ;
 	// non-trivial: at least one read->write and one write->read switch inside an RDWR session, and a flagged seek
